@@ -634,6 +634,8 @@ class MinMaxAggregator:
                 rest_cond.append(cond)
         if oldmax is None:  # the result only occurs inside a conditional literal or under double negation
             return [stm]
+        if any(var.name == varname for cond in rest_cond for var in collect_ast(cond, "Variable")):
+            return [stm]  # the value is also used in another literal
 
         # check if all Variables from old predicate are used in the tuple identifier
         # to make a unique semantics
@@ -704,6 +706,9 @@ class MinMaxAggregator:
         old_max, minmaxpred, rest_cond = self._split_element(term_tuple[0].location, elem, rest_elems)
         if minmaxpred is None or old_max is None:
             return [elem]
+        weight_vars = collect_ast(term_tuple[0], "Variable")
+        if any(var in weight_vars for cond in rest_cond for var in collect_ast(cond, "Variable")):
+            return [elem]  # the value is also used in another literal
 
         if term_tuple[0].ast_type == ASTType.Variable:
             varname = term_tuple[0].name
